@@ -7,6 +7,8 @@
 (* alias = on_alias, members = on_members), the identity of the object,    *)
 (* the identity of its parent at that moment (NoObj for the module) and    *)
 (* whether the object is of a kind that has members (module, class).       *)
+(* After the visit one pseudo-event [e |-> "intree", o] per object of the  *)
+(* returned tree closes the sequence ("placed in the tree" => announced).  *)
 (*                                                                         *)
 (* Used twice: Visitor.tla proves that every event sequence its visitor    *)
 (* actions can produce is accepted (EventsAccepted), VisitorTrace.tla      *)
@@ -26,6 +28,8 @@ Step(st, ev) ==
          ELSE IF ev.p # NoObj /\ ev.p \in st.closed THEN Reject(st, "events-members-last")  \* after on_members(parent)
          ELSE IF ev.p # NoObj /\ ev.p \notin st.conts THEN Reject(st, "member-of-function") \* parent never gets on_members
          ELSE [st EXCEPT !.ann = @ \cup {ev.o}, !.conts = IF ev.c THEN @ \cup {ev.o} ELSE @, !.n = @ + 1]
+  ELSE IF ev.e = "intree" THEN       \* after the visit: the object hangs in the returned tree (members, overloads, accessors)
+         IF ev.o \notin st.ann THEN Reject(st, "events-once") ELSE st                       \* placed but never announced
   ELSE   IF ev.o \notin st.conts THEN Reject(st, "events-once")                             \* on_members of something never announced
          ELSE IF ev.o \in st.closed THEN Reject(st, "events-members-last")                  \* on_members twice
          ELSE [st EXCEPT !.closed = @ \cup {ev.o}, !.n = @ + 1]
